@@ -128,11 +128,24 @@ TrEndReq ==
                   ELSE Append(bad, [l |-> l, cls |-> cls, ref |-> ToString(flags), note |-> ToString(cleanups)])
   /\ UNCHANGED <<groupOf, members, edges, reported, allReady, latched, closed, awake, cleanups, flags>>
 
+\* failure path (CycleGroup!CycFail): a storage read panicked at read position k of the request.  The
+\* worker recovers; the message's in-flight unit is still released, so the pipeline closes, and the
+\* failure surfaces as the pipeline's error; what was delivered before is part of the real answer.
+TrPanicRun ==
+  /\ IsEvent("PanicRun")
+  /\ LET c == IF ~Ev1.closed THEN "BAD_PIPELINE_TEARDOWN_BLOCKED_AFTER_PANIC"
+              ELSE IF Ev1.fired /\ ~Ev1.err THEN "BAD_PIPELINE_PANIC_SWALLOWED"
+              ELSE IF Ev1.extra > 0 THEN "BAD_PIPELINE_RESULT_AFTER_PANIC"
+              ELSE IF Ev1.fired THEN "OK_PIPELINE_FAILED_AND_CLOSED" ELSE "OK_PIPELINE_NOT_REACHED"
+     IN /\ counts' = Bump(counts, c) /\ judged' = judged + 1
+        /\ bad' = IF c \in {"OK_PIPELINE_FAILED_AND_CLOSED", "OK_PIPELINE_NOT_REACHED"} THEN bad
+                  ELSE Append(bad, [l |-> l, cls |-> c, ref |-> "", note |-> Ev1.spec])
+  /\ UNCHANGED <<groupOf, members, edges, reported, allReady, latched, closed, awake, cleanups, flags>>
 TrEnd ==
   /\ IsEvent("End")
   /\ PrintT(<<"VERIF", "END", ToJson([l |-> l, judged |-> judged, skipped |-> 0, bad |-> bad, counts |-> counts])>>)
   /\ UNCHANGED <<groupOf, members, edges, reported, allReady, latched, closed, awake, cleanups, flags, bad, counts, judged>>
-Next == TrBegin \/ TrJoin \/ TrEdge \/ TrInc \/ TrDec \/ TrLatch \/ TrReady \/ TrAllReady \/ TrStdDone \/ TrCleanup \/ TrWake \/ TrDrop \/ TrEndReq \/ TrEnd
+Next == TrBegin \/ TrJoin \/ TrEdge \/ TrInc \/ TrDec \/ TrLatch \/ TrReady \/ TrAllReady \/ TrStdDone \/ TrCleanup \/ TrWake \/ TrDrop \/ TrEndReq \/ TrPanicRun \/ TrEnd
 Spec == Init /\ [][Next]_vars
 TraceAccepted == TLCGet("stats").diameter - 1 = Len(Trace)
 =============================================================================
